@@ -33,7 +33,7 @@ CLAIMED = {
               "modes (quick; thorough <=4 x <=3) over the property's alphabets plus random longer ones. Not proved: that the pattern-to-items "
               "parser agrees with POSIX bracket-expression syntax (it is the shared definition of the pattern AST); Go's regexp itself is modelled."),
         note=BASE_NOTE + "Modelled, not verified: Go regexp (syntax of the emitted subset and leftmost-first semantics), utf8 decoding. "
-             "Outside the modelled subset (skipped): [.x.] / [=x=] inside brackets, brackets that Go closes elsewhere than compile.",
+             "Collating symbols and equivalence classes are modelled (one character: itself; otherwise rejected). Outside the modelled subset (skipped): brackets that Go closes elsewhere than compile.",
         technique="Coq proof that priority backtracking yields the extreme affix + differential correspondence (regex text and Match results)",
         design="5 C12"),
     "C11": dict(
